@@ -48,7 +48,7 @@ TCtor ==
   /\ pc = "idle"
   /\ opts' = [ext |-> E.ext, fmg |-> (E.fmg = 1), L |-> E.L, take |-> (E.take = 1), caches |-> (E.caches = 1),
               maxIter |-> E.maxIter, absOn |-> (E.absOn = 1), relOn |-> (E.relOn = 1), exact |-> (E.exact = 1),
-              misc |-> E.misc]
+              misc |-> E.misc, grid |-> E.grid]
   /\ built' = NoLevels /\ fgs' = FALSE /\ resNorms' = <<>> /\ exErrs' = <<>> /\ nIter' = -1 /\ meanRho' = UNSET
   /\ initNorm' = UNDEF /\ curNorm' = UNDEF /\ start' = <<"none">> /\ sid' = 0 /\ pc' = "idle" /\ k' = 0 /\ mh' = <<>>
   /\ memo' = <<>> /\ sh' = FreshSh /\ calls' = 0 /\ stopped' = FALSE /\ justSolved' = FALSE /\ hist' = <<>> /\ tsolve' = {}
